@@ -8,6 +8,14 @@ Theorem C14_window_is_documented : forall n, gen_len_ok n = true <-> (10 < n <= 
 Proof. exact len_window. Qed.
 Print Assumptions C14_window_is_documented.
 
+Theorem C14_code_window_is_the_documented_one : forall n, gen_len_ok n = documented_len_ok n.
+Proof. reflexivity. Qed.
+Print Assumptions C14_code_window_is_the_documented_one.
+
+Theorem C14_skipped_callees_are_documented : gen_REQUIRE = documented_require /\ gen_REGEXP = documented_regexp.
+Proof. split; reflexivity. Qed.
+Print Assumptions C14_skipped_callees_are_documented.
+
 (** Every reported literal lies in the window, whatever the tree (induction over the tree). *)
 Theorem C14_reported_literals_in_window : forall prog es e,
   collect true prog = Some es -> In e es -> (10 < N.of_nat (String.length (le_value e)) <= 256)%N.
